@@ -43,6 +43,7 @@ def run(ctx, repo):
     ctx.call(RR2.r_no_nondeterminism, repo)
 
     ctx.call(R12.r_class_state_writers_offline, repo)
+    ctx.call(R12.r_component_methods_disjoint, repo)
 
 if __name__ == '__main__':
     sys.exit(report.main('C11', 'other', run))
